@@ -120,7 +120,7 @@ package routing
 // is dispatched, nothing is reported. For a new bundle a reception report is sent only if the bundle asks for it, or
 // with reason "block unsupported" only while the bundle holds an unsupported block that asks for it; the bundle is
 // deleted at this stage only for an unsupported block that demands deletion.
-// govc:func (*Core).receive property C15 C13 C05
+// govc:func (*Core).receive property C15 C13 C05 C18
 //@ requires bp.Constraints != nil && c.routing != nil && bp.bndl != nil && blocksNonNil(*bp.bndl) && bp.Id == bp.bndl.ID()
 //@ let known0 := len(bp.Constraints) > 0
 //@ atcall NotifyNewBundle: !known0
